@@ -322,6 +322,8 @@ def newAsync (kind : AKind) (p : List String) : Option (Except CErr (AState Floa
       let ip : Interp σ :=
         if which == "probe" then probeInterp (ρ := Float) len osf
         else if which == "lprobe" then lprobeInterp (ρ := Float) len osf
+        -- a user-implemented interpolator whose `len()` is NOT rounded to a multiple of 8 (any length, odd ones included)
+        else if which == "rprobe" then probeInterp (ρ := Float) sl osf
         else tableInterp (ρ := Float) len osf (interpCutoff fc r) w
       some (AState.init kind r mr .nearest it ip c n)
     | _, _, _, _, _, _, _, _, _ => none
